@@ -35,6 +35,18 @@ void h_append_lengths(void) {
     int r = aws_byte_buf_append(to, from);
     if (r == 0) CANARY("appended"); else CANARY("refused");
 }
+void h_stack_push(void) {
+    struct aws_array_list *list; const void *val;
+    XGHOSTS(XF_NONE);
+    int r = aws_array_list_push_back(list, val);
+    CANARY("pushed");
+}
+void h_stack_pop(void) {
+    struct aws_array_list *list;
+    XGHOSTS(XF_NONE);
+    int r = aws_array_list_pop_back(list);
+    if (r == 0) CANARY("popped"); else CANARY("empty");
+}
 void h_node_next_sibling(void) {
     struct aws_xml_parser *parser;
     XGHOSTS(XF_SIB);
